@@ -387,12 +387,38 @@ def sod_relations(chk, w0, scalar, gammas):
         for nm, a, b in (('head<=tail', -cl, -vt), ('tail<=contact', -vt, vm), ('contact<=shock', vm, vs)):
             enc = smt.Encoder()
             script = enc.script(A, [tm.cmp('gt', a, b)])
-            chk.add(framework.Ob('%s:fronts-ordered:%s' % (tag, nm), 'prop', script, 'unsat', dict(obligation='front ordering ' + nm), None, 'sod:order:%s' % nm, (), family=fam))
-        chk.identity('%s:fan-head:rho-continuous' % tag, fan_rho(-cl), rl, A, key='sod:fan-head-rho', family=fam, witnesses=False)
-        chk.identity('%s:fan-head:u-continuous' % tag, fan_u(-cl), tm.ZERO, A, key='sod:fan-head-u', family=fam, witnesses=False)
-        chk.identity('%s:fan-tail:u-continuous' % tag, fan_u(-vt), vm, A, key='sod:fan-tail-u', family=fam, witnesses=False)
-        if gval is not None:
-            chk.identity('%s:fan-tail:rho-continuous' % tag, fan_rho(-vt), rhoml, A, key='sod:fan-tail-rho', family=fam, witnesses=False)
+            chk.add(framework.Ob('%s:fronts-ordered:%s' % (tag, nm), 'prop', script, 'unsat', dict(obligation='front ordering ' + nm), numeric_refutation(chk, [tm.cmp('gt', a, b)], A, gnum), 'sod:order:%s' % nm, (), family=fam))
+        for nm_, l_, r_ in (('fan-head:rho-continuous', fan_rho(-cl), rl), ('fan-head:u-continuous', fan_u(-cl), tm.ZERO), ('fan-tail:u-continuous', fan_u(-vt), vm)) + \
+                ((('fan-tail:rho-continuous', fan_rho(-vt), rhoml),) if gval is not None else ()):
+            chk.identity('%s:%s' % (tag, nm_), l_, r_, A, key='sod:%s' % nm_.replace(':', '-'), family=fam, witnesses=False, timeout=60,
+                         replay=numeric_refutation(chk, [tm.cmp('ne', l_, r_)], A, gnum, tol=True))
+
+
+def numeric_refutation(chk, negated, assumptions, gnum, tol=False):
+    """replay for relations between reference formulas only (front ordering, fan continuity): a solver model is accepted as a
+    counterexample only if the negated relation really holds at some sample p_m in (p_r, p_l) when the fractional powers are
+    evaluated exactly (50 digits); otherwise the `sat` is an artefact of the opaque pow atoms"""
+    def replay(ob, model):
+        import replay as rp
+        mp = rp.mp
+        hits = 0
+        for k in range(1, 200):
+            env = {'p_m': mp.mpf('0.125') + (mp.mpf(1) - mp.mpf('0.125')) * k / 200, 't': mp.mpf(1), 'x': mp.mpf('0.1'),
+                   'Gamma': mp.mpf(gnum.numerator) / gnum.denominator, 'mu': mp.mpf((gnum - 1).numerator * (gnum + 1).denominator) / ((gnum - 1).denominator * (gnum + 1).numerator)}
+            try:
+                for c in negated:
+                    if tol and c.op == 'not' and c.a[0].op == 'eq':
+                        a_, b_ = tm.evalf(list(c.a[0].a), env, mp)
+                        if abs(a_ - b_) > mp.mpf('1e-30') * (1 + abs(a_) + abs(b_)):
+                            hits += 1
+                    elif tm.evalf([c], env, mp)[0]:
+                        hits += 1
+            except Exception:
+                continue
+        if hits:
+            return dict(reproduced=True, path=chk.save_replay(ob, dict(obligation=ob.name, sample_points_violating=hits)), detail='relation violated at %d of 199 sample values of p_m' % hits)
+        return dict(reproduced=False, path=None, detail='relation holds at 199 sample values of p_m with exact powers (solver model is an artefact of the opaque pow atoms)')
+    return replay
 
 
 def body(chk):
